@@ -65,9 +65,13 @@ def main():
         for fu in concurrent.futures.as_completed(futs):
             r = fu.result()
             key = r["seed"] + ("@" + r["property"] if prop else "")
-            results[key] = r
-            print(json.dumps(r))
-            json.dump(results, open(res_path, "w"), indent=1, sort_keys=True)
+            print(json.dumps(r), flush=True)
+            import fcntl
+            with open(res_path + ".lock", "w") as lk:      # several matrix runs may be active
+                fcntl.flock(lk, fcntl.LOCK_EX)
+                results = json.load(open(res_path)) if os.path.exists(res_path) else {}
+                results[key] = r
+                json.dump(results, open(res_path, "w"), indent=1, sort_keys=True)
 
 
 if __name__ == "__main__":
